@@ -358,6 +358,18 @@ pub fn stack_configs(tier: Tier) -> Vec<Vec<Node>> {
     // combine soundly too)
     let gs = [FilterD::Lv(2), FilterD::Lv(5), FilterD::Tg("a=info,b=error".into()), FilterD::EnvSp];
     let fs = [FilterD::Lv(3), FilterD::Fn(0, None), FilterD::Dyn(0, None)];
+    for strict in [FilterD::Lv(1), FilterD::Lv(3), FilterD::Fn(1, Some(3))] {
+        for loose in [FilterD::Lv(5), FilterD::Lv(4), FilterD::Dyn(1, Some(5)), FilterD::Fn(0, None)] {
+            let (a, b) = (F(Box::new(L(1)), strict.clone()), F(Box::new(L(2)), loose.clone()));
+            out.push(vec![a.clone(), V(vec![O(None), b.clone()])]);
+            out.push(vec![a.clone(), V(vec![b.clone(), O(None)])]);
+            out.push(vec![a.clone(), And(Box::new(O(None)), Box::new(b.clone()))]);
+            out.push(vec![a.clone(), And(Box::new(b.clone()), Box::new(O(None)))]);
+            out.push(vec![V(vec![O(None), b.clone()]), a.clone()]);
+            out.push(vec![a.clone(), O(None), b.clone()]);
+            out.push(vec![a.clone(), B(Box::new(V(vec![O(None), b.clone()])))]);
+        }
+    }
     for g in &gs {
         out.push(vec![V(vec![G(g.clone()), L(1)])]);
         out.push(vec![V(vec![L(1), G(g.clone())])]);
@@ -371,6 +383,10 @@ pub fn stack_configs(tier: Tier) -> Vec<Vec<Node>> {
             out.push(vec![V(vec![G(g.clone()), L(1)]), F(Box::new(L(2)), f.clone())]);
             out.push(vec![F(Box::new(L(1)), f.clone()), O(None), G(g.clone())]);
         }
+        // a group (Vec / and_then chain) with a `None` member next to a live member, on top of
+        // a stricter layer: the group answers the "is none" probe for its member
+        out.push(vec![G(g.clone()), V(vec![O(None), L(2)])]);
+        out.push(vec![G(g.clone()), And(Box::new(O(None)), Box::new(L(2)))]);
         for g2 in &gs {
             out.push(vec![V(vec![G(g.clone()), G(g2.clone())]), L(1)]);
             out.push(vec![G(g.clone()), G(g2.clone()), L(1)]);
